@@ -335,10 +335,26 @@ def fault_label(desc):
 # ------------------------------------------------------------------ must-accept twins
 
 
+class Points(int):
+    """An application's own number types: subclasses of int and float are numbers."""
+
+
+class Seconds(float):
+    pass
+
+
+import enum as _enum
+
+Place = _enum.IntEnum("Place", {"P%d" % i: i for i in range(1, 14)})
+
+
 def wellformed_twins(n):
     """Well-formed rank/score encodings for an n-team game: list of (label, kwargs)."""
     idx = list(range(n))
     tw = [
+        ("scores_int_subclass", {"scores": [Points(10 * (n - i)) for i in idx]}),
+        ("ranks_float_subclass_mixed", {"ranks": [Seconds(60.5 + i) if i % 2 == 0 else 70.5 + i for i in idx]}),
+        ("ranks_intenum", {"ranks": [Place(1 + i % 13) for i in idx]}),
         ("omitted", {}),
         ("ranks_none", {"ranks": None}),
         ("ranks_empty", {"ranks": []}),
